@@ -43,6 +43,17 @@ func c02Exprs(quick bool) []string {
 			}
 		}
 	}
+	// attribute and namespace nodes as context nodes (several at once): the axes
+	// that lead out of them, with predicates
+	for _, cp := range []string{"//@*/", "//*/namespace::*/", "//*/@x/"} {
+		for _, ax := range []string{"parent", "ancestor", "ancestor-or-self", "self", "following", "preceding"} {
+			for _, t := range []string{"*", "node()"} {
+				for _, p := range []string{"1", "2", "last()", "position()=last()", "a", "true()", "not(position() = 1)", ". != 'a'"} {
+					out = append(out, fmt.Sprintf("%s%s::%s[%s]", cp, ax, t, p))
+				}
+			}
+		}
+	}
 	// predicate pairs: renumbering of survivors
 	pairs := []string{"1", "2", "last()", "position()=2", "position()<=2", "a", "@x", "true()", "position()=last()", "last()-1", "count(a)", "not(a)"}
 	pairAxes := []string{"child", "ancestor", "preceding", "following-sibling", "preceding-sibling", "descendant"}
@@ -123,7 +134,7 @@ func C02(c *run.Check) {
 			fmt.Println("harness: reference parser rejects", e.Text, e.Err)
 		}
 	}
-	c.Rule = fmt.Sprintf("all ordered forests with <=%d nodes over names {a,b} and text leaves x decorations {none, @x on every element} x %d predicate-bearing expressions (12 axes x 3 tests x 5 context paths x %d predicates; ordered predicate pairs; nested predicates; filter expressions (E)[p], (E)[p][q], $v[p], els()[p] and continued paths (E)[p]/step, $v//step, f()/step), evaluated from the root; surviving node sets compared by identity with the reference; non-trivial = distinct (expression, non-empty result size)", n, len(exprs), len(c02Preds))
+	c.Rule = fmt.Sprintf("all ordered forests with <=%d nodes over names {a,b} and text leaves x decorations {none, @x on every element} x %d predicate-bearing expressions (12 axes x 3 tests x 5 context paths x %d predicates; attribute and namespace context nodes x the 6 axes leading out of them x 8 predicates; ordered predicate pairs; nested predicates; filter expressions (E)[p], (E)[p][q], $v[p], els()[p] and continued paths (E)[p]/step, $v//step, f()/step), evaluated from the root; surviving node sets compared by identity with the reference; non-trivial = distinct (expression, non-empty result size)", n, len(exprs), len(c02Preds))
 	r := newXRunner(c, "C02", EnvSpec{})
 	r.envFor = c02EnvFor
 	type job struct {
